@@ -13,7 +13,8 @@
   offset / selector arrays slot by slot.
 
   The defects of the current code are modelled as they are:
-    * enum columns and net columns in plain encoding: the load fails (`none`);
+    * enum columns: the load fails (`none`) (net columns in plain encoding did too until
+      /repo 496cea1e9; the model follows the regenerated allocation fact);
     * a union's tags are loaded WITHOUT expansion over null slots and `Union.Serialize`
       ignores the union's nulls;
     * the inner column of an error type is flattened with a nil parent although its length
@@ -94,6 +95,10 @@ def isNetTy : Ty → Bool
   | .prim 27 => true
   | _ => false
 
+/-- the `net` case of `loadVals` allocates its slice before indexing it (T1 fact; it did not
+    before /repo 496cea1e9: `var values []netip.Prefix; values[slot] = …`). -/
+def netAllocated : Bool := !(loadValsCases.contains ("TypeOfNet", "nil-slice"))
+
 def isEnumTy : Ty → Bool
   | .enum _ => true
   | _ => false
@@ -113,7 +118,7 @@ def loadLeaf (t : Ty) (p : PCol) (length : Nat) (nulls : Bitmap) : Option Vec :=
     | .plain vals count =>
       if isNullTy t then some (.constNull length)
       else if count = 0 then some (.flat t (List.replicate length []) nulls)   -- `empty`
-      else if isNetTy t then none                           -- `var values []netip.Prefix; values[slot] = …`
+      else if isNetTy t && !netAllocated then none          -- a nil slice would be indexed
       else some (.flat t (fillSlots [] length 0 nulls vals) nulls)
 
 mutual
